@@ -29,6 +29,25 @@ SHAPE = {
     "Kdes": {"digest": "11k", "min": 13, "max": 2 + 16 * 11},         # descrypt 13, bigcrypt 2 + 11 per 8-byte block, up to 16 blocks
 }
 P_DIGEST = 4
+HEX = frozenset(b"0123456789abcdef")
+DIG = frozenset(b"0123456789")
+
+
+def lit(b):
+    return [frozenset([c]) for c in b]
+
+
+# positional alphabets of the methods whose whole result is drawn from fixed alphabets (crypt.5 regexes); None = position not constrained here.
+# Methods that copy an arbitrary salt ([^$:\n] in crypt.5: md5crypt, sha256crypt, sha512crypt, sunmd5, sha1crypt) and scrypt's salt
+# field (checked only up to its first '$' by the library) are not listed position by position: their digest characters are covered below.
+ALPHA = {
+    "K_": lit(b"_") + [K.A64] * 19,
+    "K$2a$": lit(b"$2a$") + [DIG, DIG] + lit(b"$") + [K.A64] * 53, "K$2b$": lit(b"$2b$") + [DIG, DIG] + lit(b"$") + [K.A64] * 53,
+    "K$2x$": lit(b"$2x$") + [DIG, DIG] + lit(b"$") + [K.A64] * 53, "K$2y$": lit(b"$2y$") + [DIG, DIG] + lit(b"$") + [K.A64] * 53,
+    "K$3$": lit(b"$3$$") + [HEX] * 32,
+    "K$7$": lit(b"$7$") + [K.A64] * 11,            # N (1), r (5), p (5)
+    "Kdes": [K.A64] * 178,
+}
 
 
 def health(chk, g):
@@ -114,6 +133,7 @@ def c06(chk, g):
     chk.rule("X-PREFIX", "a successful result starts with the prefix of the setting's method and never with '*'")
     chk.rule("X-LEN", "a successful result is NUL-terminated and shorter than CRYPT_OUTPUT_SIZE")
     chk.rule("X-DIGEST-LEN", "the number of result characters that carry digest provenance (less the blur of the length range) is the method's fixed digest length")
+    chk.rule("X-ALPHABET", "every character of a successful result is in the alphabet its position has in the method's documented format (fixed-layout methods), and every digest character is one of ./0-9A-Za-z (hex for NT)")
     chk.rule("X-SHAPE-LEN", "the total length of a successful result lies within the method's documented minimum and maximum (prefix, options, truncated salt, delimiters, digest)")
     shape_seen = set()
     n = 0
@@ -193,6 +213,28 @@ def shape(chk, mt, p, ln, d, cid, seen):
             chk.count("X-DIGEST-LEN", 1, [mt["base"]])
         else:
             chk.fail("X-DIGEST-LEN", "digest|%s|%d" % (mt["base"], nd), "the result carries %d digest characters, the method's digest has %s [%s]" % (nd, sp["digest"], d), "lib/", where)
+    # alphabets
+    al = ALPHA.get(mt["base"])
+    bad = None
+    if al is not None:
+        for i, (s_, pr) in enumerate(out[:min(nh, len(al))]):
+            extra = s_ - al[i] - (frozenset([0]) if i >= nl else frozenset())
+            if extra and len(s_) < 200:
+                bad = (i, extra, "position %d of the documented format" % i)
+                break
+            if extra:
+                bad = (i, extra, "position %d of the documented format (unconstrained byte)" % i)
+                break
+    if bad is None and sp["digest"] is not None and not sp.get("digest_undecided"):
+        dal = HEX if mt["base"] == "K$3$" else K.A64
+        for i, (s_, pr) in enumerate(out[:nh]):
+            if pr == P_DIGEST and (s_ - dal - frozenset([0])) and len(s_) < 200:
+                bad = (i, s_ - dal, "digest character at offset %d" % i)
+                break
+    if bad:
+        chk.fail("X-ALPHABET", "alpha|%s|%d" % (mt["base"], bad[0]), "%s may be one of %s [%s]" % (bad[2], sorted(chr(x) if 32 < x < 127 else "\\x%02x" % x for x in bad[1])[:10], d), "lib/", where)
+    else:
+        chk.count("X-ALPHABET", 1, [mt["base"]])
     # total length
     hi = None if sp["max"] is None else sp["max"] + sp.get("slack", 0)
     if hi is not None and nh > hi:
